@@ -30,7 +30,8 @@ TraceInit == /\ cfg = IdleCfg /\ pc = "idle" /\ si = 0 /\ mwi = 0 /\ url = U0 /\
              /\ l = 1 /\ bad = << >>
 
 \* connection failures: which of the two errors is reported depends on pooling only
-ErrMatch(got, want) == IF want \in {"closed", "badpool"} THEN got \in {"closed", "badpool"} ELSE got = want
+ErrMatch(got, want) == IF want \in {"closed", "badpool"} THEN got \in {"closed", "badpool"}
+                       ELSE IF want = "late" THEN got \in {"timeout", "canceled"} ELSE got = want
 
 Timed == cfg.timeoutMs > 0 /\ (ReqT \/ TimerApi)
 Elapsed(ln) == Timed => /\ ln.elapsedMs <= cfg.timeoutMs + SlackMs
@@ -81,7 +82,7 @@ NextCase(k) == IF \E j \in k + 1 .. Len(Trace) : Trace[j].ev = "Case"
 
 Mismatch == /\ l <= Len(Trace) /\ ~ENABLED Normal
             /\ bad' = Append(bad, l)
-            /\ l' = IF Len(bad) >= 200 THEN Len(Trace) + 1 ELSE NextCase(l)
+            /\ l' = IF Len(bad) >= 100000 THEN Len(Trace) + 1 ELSE NextCase(l)
             /\ Idle
 
 MismatchEOF == /\ l = Len(Trace) + 1 /\ pc # "idle" /\ ~ENABLED TraceStep
